@@ -2,6 +2,7 @@ INIT Init
 NEXT Next
 CONSTANTS
   MaxOps = 2
+  CpsMode = FALSE
   Wide = TRUE
 INVARIANT RoundTripMin
 INVARIANT RoundTripFull
